@@ -44,3 +44,28 @@ Definition render_piece (args : list tstr) (fl : list flow) (p : piece) : str :=
 
 Definition render_pieces (args : list tstr) (fl : list flow) (ps : list piece) : str :=
   concat (map (render_piece args fl) ps).
+
+(* ---------------------------------------------------------------- arguments that are not strings
+   A filter argument is a (plain or Markup) string, or any other object (list, tuple, dict, an
+   object with __str__, ...) whose text str(x) contains data.  Such an object has no __html__: it is
+   never Markup, escape(x) = escape(str(x)), and interpolating it (f"{x}", "%s" % x, str.join)
+   copies str(x) unescaped. *)
+Inductive carg := CStr (v : tstr) | CObj (text : str).
+
+Definition c_is_mk (a : carg) : bool := match a with CStr v => is_mk v | CObj _ => false end.
+Definition c_raw (a : carg) : str := match a with CStr v => raw v | CObj t => t end.
+Definition c_esc_str (a : carg) : str := match a with CStr v => esc_str v | CObj t => escape t end.
+
+Definition render_piece_c (args : list carg) (fl : list flow) (p : piece) : str :=
+  match p with
+  | Own s => s
+  | FromArg i tr =>
+      match nth_error args i, nth_error fl i with
+      | Some a, Some FlEsc => tr (c_esc_str a)
+      | Some a, Some FlRaw => tr (c_raw a)
+      | _, _ => []
+      end
+  end.
+
+Definition render_pieces_c (args : list carg) (fl : list flow) (ps : list piece) : str :=
+  concat (map (render_piece_c args fl) ps).
